@@ -70,14 +70,10 @@ func init() {
 func (c *c03) NumCases(string) int { return c.n }
 
 func (c *c03) Stats() map[string]any {
-	ms := []any{}
-	blind := []string{}
+	ms := map[string]any{}
 	for _, m := range c.sites.MapSites {
 		v, v2, ni := simrt.MapSiteStats(m.ID)
-		ms = append(ms, map[string]any{"site": fmt.Sprintf("%s:%d %s", m.File, m.Line, m.Func), "visits": v, "visits_ge2_keys": v2, "non_ascending": ni})
-		if v2 == 0 {
-			blind = append(blind, fmt.Sprintf("%s:%d", m.File, m.Line))
-		}
+		ms[fmt.Sprintf("%s:%d %s", m.File, m.Line, m.Func)] = map[string]any{"visits": v, "visits_ge2_keys": v2, "non_ascending": ni}
 	}
 	gets, reuses, cross, drops, notLast := simrt.PoolStats()
 	sw, yl, lw, ow, hot := simrt.SchedStats()
@@ -86,7 +82,7 @@ func (c *c03) Stats() map[string]any {
 		"executions": c.st.Exec, "comparisons": c.st.Compared, "env_with_history": c.st.EnvHistory, "env_with_companions": c.st.EnvCompanions,
 		"env_fresh_process": c.st.EnvFresh, "accepted": c.st.Accepted, "rejected": c.st.Rejected, "multi_fault_docs": c.st.MultiFaultDocs,
 		"comparisons_with_consumed_nondefault_decision": c.st.NonDefault,
-		"map_site_visits_this_shard":                    ms, "map_sites_never_ge2_keys_this_shard": blind,
+		"map_sites":   ms,
 		"pool":        map[string]any{"gets": gets, "reuses": reuses, "cross_goroutine": cross, "drops": drops, "not_most_recent": notLast},
 		"sched":       map[string]any{"switches": sw, "yields": yl, "lock_waits": lw, "once_waits": ow, "switches_inside_library": hot},
 		"clock_reads": cr, "rand_reads": rr,
